@@ -242,6 +242,13 @@ func apply(fs *simfs.FS, muts []Mut) damageInfo {
 		case "garbage":
 			g := kit.Fill(len(b), byte(m.Val), uint64(m.Off), 7)
 			b = g
+		case "strayfile":
+			// an extra file with the segment suffix whose name is not a segment name
+			stray := []string{"not-a-segment.wal", "0000000000000000000x-0000000000000000.wal", ".wal", "00000000000000000001.wal"}[int(m.Val)%4]
+			fs.WriteFile(stray, kit.Fill(int(m.Len), byte(m.Val), 1, 2))
+			di.effective++
+			di.kinds = append(di.kinds, "strayfile")
+			continue
 		case "remove":
 			fs.RemoveFile(name)
 			di.effective++
